@@ -1,4 +1,6 @@
 /* C11 event log and message model */
+typedef int qcfg;                           /* the client's QXmppConfiguration object: only its jidBare() / jid() getters are used */
+qstr gh_cfg_jid;                            /* the configured own FULL JID (opaque; nothing relates it to the bare JID here) */
 qstr gh_cfg_jidBare;                       /* the configured own bare JID (opaque) */
 typedef struct QXmppMessage { qdom parsed_from; bool carbonForwarded; bool parsed; } QXmppMessage;
 static inline void QXmppMessage_ctor(QXmppMessage *m) { m->parsed_from = 0; m->carbonForwarded = false; m->parsed = false; }
@@ -13,3 +15,6 @@ static inline void ev_messageReceived(const QXmppMessage *m) { ev_deliver(3, m);
    <forwarded xmlns=urn:xmpp:forward:0/> of the carbon wrapper */
 #define INNER_MESSAGE(carbon) __CPROVER_uninterpreted_dom_first_child(__CPROVER_uninterpreted_dom_first_child((carbon), S("forwarded"), S("urn:xmpp:forward:0")), S("message"), S("jabber:client"))
 #define V1_CARBON(e) (__CPROVER_uninterpreted_dom_first_child((e), S("sent"), S("urn:xmpp:carbons:2")) != 0 ? __CPROVER_uninterpreted_dom_first_child((e), S("sent"), S("urn:xmpp:carbons:2")) : __CPROVER_uninterpreted_dom_first_child((e), S("received"), S("urn:xmpp:carbons:2")))
+
+/* QDomElement::attribute(name, default): the default exactly when the attribute is absent */
+static inline qstr qdom_attribute_or(qdom e, qstr name, qstr dflt) { return qdom_hasAttribute(e, name) ? qdom_attribute(e, name) : dflt; }
